@@ -30,6 +30,19 @@ TextChangesViol(r) ==
            THEN {} ELSE {"index_seq"})
      \cup (IF r.all = r.per_op THEN {} ELSE {"iter_agree"})
 
+(* C04 at token granularity (inputs too large to log byte by byte): tokens are numbered by  *)
+(* the harness's own dictionary, equal numbers = equal token texts.                          *)
+TextChangesTokViol(r) ==
+  IF r.panic THEN {"panic"}
+  ELSE
+  LET ch == r.all
+      nonIns == SelectSeq(ch, LAMBDA c : c[1] # 2)
+      nonDel == SelectSeq(ch, LAMBDA c : c[1] # 1)
+  IN (IF [i \in 1..Len(nonIns) |-> nonIns[i][4]] = r.old_tok THEN {} ELSE {"recon_old"})
+     \cup (IF [i \in 1..Len(nonDel) |-> nonDel[i][4]] = r.new_tok THEN {} ELSE {"recon_new"})
+     \cup (IF (\A i \in 1..Len(nonIns) : nonIns[i][2] = i - 1) /\ (\A i \in 1..Len(nonDel) : nonDel[i][3] = i - 1)
+           THEN {} ELSE {"index_seq"})
+
 (* C14: the ops of a text diff are the ops of diffing its token slices      *)
 (* directly with the same algorithm; reported algorithm and newline flag.   *)
 TextOpsViol(r) ==
